@@ -228,7 +228,15 @@ func (v *visitor) VisitTextLiteral(ctx *gen.TextLiteralContext) any {
 
 // VisitNumberLiteral deals with numbers like 123 or 1.5
 func (v *visitor) VisitNumberLiteral(ctx *gen.NumberLiteralContext) any {
-	return &NumberLiteral{Value: types.RequireXNumberFromString(ctx.GetText())}
+	num := types.RequireXNumberFromString(ctx.GetText())
+
+	// the value of a literal doesn't depend on how it is written: 1.50 is the number 1.5, and is printed as that. Limits
+	// which look at the scale of a number treat the expression and its printed form alike if the literal has no
+	// trailing zeros after its decimal point to begin with (the text form of a decimal has none).
+	if num.Native().Exponent() < 0 {
+		num = types.RequireXNumberFromString(num.Native().String())
+	}
+	return &NumberLiteral{Value: num}
 }
 
 // VisitTrue deals with the `true` reserved word
